@@ -6,6 +6,7 @@
 // abort on the states the known defects produce, instead of letting them be observed).
 #include <xalanc/Include/PlatformDefinitions.hpp>
 #include <xalanc/XalanDOM/XalanDOMString.hpp>
+#include <xalanc/PlatformSupport/XalanBitmap.hpp>
 #include <xalanc/XalanTransformer/XalanTransformer.hpp>
 #include <xercesc/util/PlatformUtils.hpp>
 #include <xercesc/framework/MemoryManager.hpp>
@@ -70,6 +71,29 @@ static std::string show(StrPair& p, bool& bad)
     return o.str();
 }
 
+struct BmpPair
+{
+    std::unique_ptr<XalanBitmap> x;
+    std::vector<bool> s;
+    BmpPair() : x(new XalanBitmap(g_mm, 0)) {}
+};
+
+static std::string show(BmpPair& p, bool& bad)
+{
+    std::ostringstream o;
+    const XalanBitmap& c = *p.x;
+    o << c.getSize() << " :";
+    bool same = c.getSize() == p.s.size();
+    for (size_t i = 0; i < c.getSize(); ++i)
+    {
+        const bool b = c.isSet(i);
+        o << (b ? " 1" : " 0");
+        if (same && b != p.s[i]) same = false;
+    }
+    if (!same) { o << " !std"; bad = true; }
+    return o.str();
+}
+
 static bool units(const std::string& t, std::vector<XalanDOMChar>& out)
 {
     out.clear();
@@ -100,6 +124,8 @@ int main()
     {
         std::vector<StrPair*> ss;
         for (int i = 0; i < 4; ++i) ss.push_back(new StrPair);
+        std::vector<BmpPair*> bs;
+        for (int i = 0; i < 2; ++i) bs.push_back(new BmpPair);
         bool poisoned = false;
         long leaked = 0;
         std::string line;
@@ -112,13 +138,33 @@ int main()
             if (t.size() == 1 && t[0] == "reset")
             {
                 for (auto*& p : ss) { delete p; }
+                for (auto*& p : bs) { delete p; }
                 leaked += g_mm.live; g_mm.live = 0;
                 for (auto*& p : ss) { p = new StrPair; }
+                for (auto*& p : bs) { p = new BmpPair; }
                 poisoned = false;
                 std::cout << "ok\n";
                 continue;
             }
             if (poisoned) { std::cout << "skip\n"; continue; }
+            if (t.size() >= 3 && t[0] == "bmp")
+            {
+                size_t bi = 0, x = 0;
+                if (!num(t[2], bi) || bi >= bs.size()) { std::cout << "bad\n"; continue; }
+                BmpPair& q = *bs[bi];
+                const std::string& bop = t[1];
+                if (bop == "new" && t.size() == 4 && num(t[3], x)) { q.x.reset(new XalanBitmap(g_mm, x)); q.s.assign(x, false); }
+                else if (bop == "set" && t.size() == 4 && num(t[3], x)) { q.x->set(x); q.s[x] = true; }
+                else if (bop == "clear" && t.size() == 4 && num(t[3], x)) { q.x->clear(x); q.s[x] = false; }
+                else if (bop == "toggle" && t.size() == 4 && num(t[3], x)) { q.x->toggle(x); q.s[x] = !q.s[x]; }
+                else if (bop == "clearall") { q.x->clearAll(); q.s.assign(q.s.size(), false); }
+                else { std::cout << "bad\n"; continue; }
+                bool bbad = false;
+                std::string bout = show(q, bbad);
+                if (bbad) poisoned = true;
+                std::cout << bout << "\n";
+                continue;
+            }
             if (t.size() < 3 || t[0] != "str") { std::cout << "bad\n"; continue; }
             const std::string& op = t[1];
             size_t id = 0;
@@ -198,6 +244,7 @@ int main()
             std::cout << out << "\n";
         }
         for (auto* p : ss) delete p;
+        for (auto* p : bs) delete p;
         leaked += g_mm.live;
         std::cout << "live " << leaked << "\n";
     }
